@@ -66,7 +66,7 @@ type memIO struct {
 type bufW struct{ b []byte }
 
 func (w *bufW) Write(p []byte) (int, error) { w.b = append(w.b, p...); return len(p), nil }
-func (*bufW) IsTerminal() bool             { return false }
+func (*bufW) IsTerminal() bool              { return false }
 
 func (m *memIO) Create(path string) (gtb.TerminalWriter, func(), error) {
 	m.mu.Lock()
@@ -114,12 +114,13 @@ func RunCLI(files map[string][]byte, now time.Time, getter verify.HTTPSGetter, a
 }
 
 type c01env struct {
-	m        *Material
-	snpMeas  []byte
-	att      *spb.Attestation // without the extra entry
-	attBytes []byte
-	endo     map[string]*epb.VMLaunchEndorsement // key cert|payload|prov|sig
-	oracle   map[string]bool                     // concrete signature validity per key
+	m            *Material
+	snpMeas      []byte
+	att          *spb.Attestation // without the extra entry
+	attBytes     []byte
+	endo         map[string]*epb.VMLaunchEndorsement // key cert|payload|prov|sig
+	genuineBytes []byte                              // a fully genuine endorsement (serialized)
+	oracle       map[string]bool                     // concrete signature validity per key
 }
 
 func (e *c01env) certDER(class string) []byte {
@@ -149,6 +150,11 @@ func (e *c01env) build() {
 	e.attBytes, _ = proto.Marshal(&tpmpb.Attestation{TeeAttestation: &tpmpb.Attestation_SevSnpAttestation{SevSnpAttestation: e.att}})
 	e.endo = map[string]*epb.VMLaunchEndorsement{}
 	e.oracle = map[string]bool{}
+	{
+		gs := GoldenSpec{Snp: map[uint32][]byte{2: e.snpMeas}, Tdx: []*epb.VMTdx_Measurement{{Mrtd: m.Mrtd}}, Digest: Meas("fw"), Cert: m.SignCert.Raw, Svn: 1,
+			Timestamp: time.Date(2025, 2, 1, 0, 0, 0, 0, time.UTC), ClSpec: 4321}
+		e.genuineBytes, _ = proto.Marshal(Endorse(gs.Proto(), m.S))
+	}
 	garbageSig := make([]byte, 256)
 	for i := range garbageSig {
 		garbageSig[i] = byte(i*7 + 3)
@@ -284,6 +290,12 @@ func (e *c01env) run(r Row) (accepted bool, errText string) {
 			o := base()
 			o.Endorsement = en
 			err = verify.SNPValidateFunc(o)(e.att, nil)
+		case "SNPFunc_opts_plus_genuine_blob":
+			o := base()
+			o.Endorsement = en
+			err = verify.SNPValidateFunc(o)(e.att, e.genuineBytes)
+		case "SevValidate_opts_plus_genuine_extra":
+			err = gtb.SevValidate(ctx, attWith(e.genuineBytes), &gtb.SevValidateOptions{Endorsement: en, RootsOfTrust: roots, Now: now})
 		case "SNPFunc_getter":
 			o := base()
 			o.Getter = &MapGetter{Body: map[string][]byte{snpURL(e.snpMeas): eb}}
@@ -296,8 +308,11 @@ func (e *c01env) run(r Row) (accepted bool, errText string) {
 			err = gtb.SevValidate(ctx, attWith(nil), &gtb.SevValidateOptions{RootsOfTrust: roots, Now: now, Getter: &MapGetter{Body: map[string][]byte{snpURL(e.snpMeas): eb}}})
 		case "TdxValidate_opts":
 			err = gtb.TdxValidate(ctx, e.m.QuoteBytes, &gtb.TdxValidateOptions{Endorsement: en, RootsOfTrust: roots, Now: now})
-		case "cli_verify", "cli_sev_validate", "cli_tdx_validate":
+		case "cli_verify", "cli_sev_validate", "cli_tdx_validate", "cli_sev_plus_genuine_extra":
 			files := map[string][]byte{"endo.bin": eb, "att.bin": e.attBytes, "quote.bin": e.m.QuoteBytes}
+			if r.Entry == "cli_sev_plus_genuine_extra" {
+				files["att.bin"], _ = proto.Marshal(&tpmpb.Attestation{TeeAttestation: &tpmpb.Attestation_SevSnpAttestation{SevSnpAttestation: attWith(e.genuineBytes)}})
+			}
 			var rootArgs []string
 			if rf := e.rootsFile(r.Roots); rf != nil {
 				files["root.pem"] = rf
@@ -307,7 +322,7 @@ func (e *c01env) run(r Row) (accepted bool, errText string) {
 			switch r.Entry {
 			case "cli_verify":
 				args = append([]string{"verify", "endo.bin"}, rootArgs...)
-			case "cli_sev_validate":
+			case "cli_sev_validate", "cli_sev_plus_genuine_extra":
 				args = append([]string{"sev", "validate", "att.bin", "--endorsement", "endo.bin"}, rootArgs...)
 			default:
 				args = append([]string{"tdx", "validate", "quote.bin", "--endorsement", "endo.bin"}, rootArgs...)
